@@ -1,6 +1,6 @@
 import typing
 from collections.abc import Collection, Hashable, Mapping
-from dataclasses import dataclass, replace
+from dataclasses import InitVar, dataclass, replace
 from itertools import chain
 from typing import Callable, Generic, TypeVar
 
@@ -78,6 +78,10 @@ class GenericResolver(Generic[K, M]):
     def _parametrize_by_dict(self, type_var_to_actual, tp: TypeHint) -> TypeHint:
         if tp in type_var_to_actual:
             return type_var_to_actual[tp][0]
+
+        if isinstance(tp, InitVar):
+            # InitVar[T] is an object that has no ``__parameters__`` and can not be subscribed again
+            return InitVar[self._parametrize_by_dict(type_var_to_actual, tp.type)]
 
         params = get_type_vars_of_parametrized(tp)
         if not params:
